@@ -258,3 +258,18 @@ Theorem C13_embedded_logger_refuted :
   /\ y_route snapshot (s "logLogger") [(s "l", false, false, s "*log.Logger")] (RFieldSel (s "l")) (s "Fatal") = Recoverable.
 Proof. exact embedded_refuted. Qed.
 Print Assumptions C13_embedded_logger_refuted.
+
+(* ------------------------------------------------------------------ print builtins, every statement form *)
+
+(** The generators of the print builtins mention, in all their branches (plain, defer, go ...), no
+    function of fmt other than the Fprint family and no host stream (regenerated from interp/run.go). *)
+Theorem C13_builtins_host_free : builtins_host_free live = true.
+Proof. exact builtins_host_free_live. Qed.
+Print Assumptions C13_builtins_host_free.
+
+Theorem C13_builtins_host_free_refuted :
+  builtins_host_free {| t_keys := []; t_bind := []; t_restricted := []; t_extract := []; t_fix := [];
+                        t_builtin := [(s "print", [s "fmt.Fprintf"; s "n.interp.stdout"; s "fmt.Print"]);
+                                      (s "println", [s "fmt.Fprintf"; s "n.interp.stdout"])] |} = false.
+Proof. exact builtins_host_free_refuted. Qed.
+Print Assumptions C13_builtins_host_free_refuted.
